@@ -1,0 +1,14 @@
+//go:build verif
+
+package operator
+
+// VerifTimerCacheSize lets a simulator shrink the timer cache that HandleDeploy
+// sizes at 1 GB (verification builds only). Nil means shipped behaviour.
+var VerifTimerCacheSize func(requested uint64) uint64
+
+func verifTimerCacheSize(requested uint64) uint64 {
+	if VerifTimerCacheSize == nil {
+		return requested
+	}
+	return VerifTimerCacheSize(requested)
+}
